@@ -53,6 +53,13 @@ structure TypeSwitch where
   selfMutationInsideEach : List Bool
 deriving DecidableEq, Repr
 
+/-- an interface of cardinality.go: embedded interfaces and own methods (sorted) -/
+structure ApiInterface where
+  name : String
+  embedded : List String
+  methods : List String
+deriving DecidableEq, Repr
+
 /-- the protocol before hooks/C13-fix2.patch: `s.lock.Lock(); defer s.lock.Unlock(); [return] s.provider.<same
 method>(…)` and nothing else, for every method — a wrapper operand is then read under the receiver's lock -/
 def WrapperMethod.isLockDelegateUnlockOld (m : WrapperMethod) : Bool :=
@@ -79,6 +86,13 @@ def simplexMethods : List String := ["Add", "Cardinality", "Clear", "Clone", "Or
 
 def binaryMethods : List String := ["And", "AndNot", "Or", "Xor"]
 
+/-- the two wrapper types of lock.go with their method sets and the methods that take an operand -/
+def wrapperKinds : List (String × List String × List String) :=
+  [("threadSafeDuplex", duplexMethods, binaryMethods), ("threadSafeSimplex", simplexMethods, ["Or"])]
+
+def methodsOf (wrapper : String) : List String := ((wrapperKinds.find? (·.1 == wrapper)).map (·.2.1)).getD []
+def operandMethodsOf (wrapper : String) : List String := ((wrapperKinds.find? (·.1 == wrapper)).map (·.2.2)).getD []
+
 def methodSetOk (tbl : List WrapperMethod) : Bool :=
   (tbl.filter (·.recv == "threadSafeDuplex")).map (·.name) == duplexMethods &&
   (tbl.filter (·.recv == "threadSafeSimplex")).map (·.name) == simplexMethods &&
@@ -95,14 +109,14 @@ def wrappersOk (snapshot : Bool) (tbl : List WrapperMethod) (cases : List Snapsh
    else tbl.all WrapperMethod.isLockDelegateUnlockOld && cases == [])
 
 /-- is method `name` of the duplex wrapper a lock-delegate-unlock body? (`false` if it is missing) -/
-def lockedIn (tbl : List WrapperMethod) (name : String) : Bool :=
-  match tbl.find? (fun m => m.recv == "threadSafeDuplex" && m.name == name) with
+def lockedIn (tbl : List WrapperMethod) (name : String) (wrapper : String := "threadSafeDuplex") : Bool :=
+  match tbl.find? (fun m => m.recv == wrapper && m.name == name) with
   | some m => m.isLockDelegateUnlock
   | none => false
 
 /-- does method `name` snapshot its operand before taking the lock? -/
-def snapshotsIn (tbl : List WrapperMethod) (name : String) : Bool :=
-  match tbl.find? (fun m => m.recv == "threadSafeDuplex" && m.name == name) with
+def snapshotsIn (tbl : List WrapperMethod) (name : String) (wrapper : String := "threadSafeDuplex") : Bool :=
+  match tbl.find? (fun m => m.recv == wrapper && m.name == name) with
   | some m => m.isLockDelegateUnlock && m.snapshotStmts == 1
   | none => false
 
@@ -132,5 +146,67 @@ def expectedSwitch (fixed : Bool) (w : Width) (op : BinOp) : TypeSwitch :=
 
 def expectedSwitches (fixed : Bool) : List TypeSwitch :=
   [Width.w32, Width.w64].flatMap (fun w => [BinOp.and, .andNot, .or, .xor].map (expectedSwitch fixed w))
+
+/-! ### API completeness: every method of the interfaces × every implementation is an op of the model or exempt -/
+
+/-- insertion sort on strings (to compare method sets) -/
+def sortStr (l : List String) : List String :=
+  l.foldr (fun x acc => (acc.takeWhile (· < x)) ++ x :: (acc.dropWhile (· < x))) []
+
+/-- all methods of an interface: its own and (one level, as in cardinality.go) those of the embedded interfaces -/
+def ifaceMethods (tbl : List ApiInterface) (name : String) : List String :=
+  match tbl.find? (·.name == name) with
+  | none => []
+  | some i => sortStr (i.methods ++ i.embedded.flatMap (fun e => ((tbl.find? (·.name == e)).map (·.methods)).getD []))
+
+/-- the operations of the model: Duplex method ↦ op verb of the line protocol (harness/c13.go, Driver/C13,
+Driver/C13Mon, `Spec.Op`, `ConcProps.SetMethod`) -/
+def modelOps : List (String × String) :=
+  [("Add", "add"), ("And", "and"), ("AndNot", "andnot"), ("Cardinality", "card"), ("CheckedAdd", "cadd"), ("Clear", "clear"),
+   ("Clone", "clone"), ("Contains", "contains"), ("Each", "each"), ("Or", "or"), ("Remove", "remove"), ("Slice", "slice"),
+   ("Xor", "xor")]
+
+/-- exact providers: every method must be a model op (or be listed in `exemptMethods`) -/
+def duplexImpls : List String := ["bitmap32", "bitmap64", "threadSafeDuplex"]
+/-- one-way providers: only the wrapper's locking is in scope of C13 -/
+def simplexImpls : List String := ["hyperLogLog32", "hyperLogLog64", "threadSafeSimplex"]
+
+/-- methods that exist on an implementation and are deliberately not an operation of the model, with the reason -/
+def exemptMethods : List (String × String × String) :=
+  [("bitmap32", "Iterator", "not a method of Duplex/Simplex/Provider; exported helper without callers, returns roaring's iterator"),
+   ("bitmap64", "Iterator", "not a method of Duplex/Simplex/Provider; exported helper without callers, returns roaring's iterator")]
+
+/-- types of the package that are not providers, with the reason they are outside the model -/
+def exemptTypes : List (String × String) :=
+  [("bitmap32Iterator", "adapter around roaring's iterator, reachable only through the exempt bitmap32.Iterator"),
+   ("bitmap64Iterator", "adapter around roaring64's iterator, reachable only through the exempt bitmap64.Iterator")]
+
+/-- the lazy membership combinators of commutative.go (not Providers): modelled by `commContains` /
+`commDuplexesContains` (Model/C13), op `comm` of the line protocol; their method sets are pinned -/
+def combinatorTypes : List (String × List String) :=
+  [("CommutativeDuplexes", ["And", "Contains", "Or", "valueInAndSets", "valueInOrSets"]),
+   ("DuplexCommutation", ["Contains", "Or"])]
+
+def methodsOfImpl (impls : List (String × List String)) (t : String) : List String := ((impls.find? (·.1 == t)).map (·.2)).getD []
+
+def subsetStr (a b : List String) : Bool := a.all (b.contains ·)
+
+/-- the obligation: a method added to an interface, a method added to an implementation, or a new type with methods
+in package cardinality makes this `false` until it is an op of the model or listed exempt -/
+def apiComplete (ifaces : List ApiInterface) (impls : List (String × List String)) : Bool :=
+  -- the interfaces are the ones the model knows
+  ifaces.map (·.name) == ["Duplex", "Iterator", "Provider", "Simplex"] &&
+  ifaceMethods ifaces "Duplex" == modelOps.map (·.1) &&
+  ifaceMethods ifaces "Simplex" == simplexMethods &&
+  ifaceMethods ifaces "Duplex" == duplexMethods &&
+  -- every type with methods is a known implementation or exempt
+  impls.map (·.1) == sortStr (duplexImpls ++ simplexImpls ++ exemptTypes.map (·.1) ++ combinatorTypes.map (·.1)) &&
+  combinatorTypes.all (fun c => methodsOfImpl impls c.1 == c.2) &&
+  -- exact providers implement the whole Duplex interface and nothing but model ops / exempt methods
+  duplexImpls.all (fun t =>
+    subsetStr (ifaceMethods ifaces "Duplex") (methodsOfImpl impls t) &&
+    (methodsOfImpl impls t).all (fun m => (modelOps.map (·.1)).contains m || exemptMethods.any (fun e => e.1 == t && e.2.1 == m))) &&
+  -- one-way providers implement exactly the Simplex interface
+  simplexImpls.all (fun t => methodsOfImpl impls t == ifaceMethods ifaces "Simplex")
 
 end Dawgs.C13.Facts
